@@ -176,6 +176,11 @@ func zzNewSyncEnv(ctx context.Context, K, stored, getterErrs int, gates bool) *z
 			if h.H > env.netTop {
 				env.netTop = h.H
 			}
+			if h.H > env.topAccepted {
+				// a head above everything accepted so far: it becomes the sync target ("the next learned head")
+				env.topAccepted = h.H
+				env.errSinceHead = false
+			}
 			return h, nil
 		}
 		if ve, ok := verr.(*header.VerifyError); ok && ve.SoftFailure {
